@@ -4,6 +4,7 @@ import (
 	"fmt"
 	"go/token"
 	"sort"
+	"strings"
 
 	"golang.org/x/tools/go/ssa"
 )
@@ -68,7 +69,18 @@ func ruleAtomic(c *Ctx) {
 			}
 		case *ssa.Call:
 			if cal := x.Call.StaticCallee(); cal != nil && c.P.inModule(cal) && reachesIndexMutator(c.P, cal) {
-				d = "call " + fnName(cal)
+				// named by WHAT is published (the index mutators in the callee's cone), so that the
+				// obligation keeps its identity when the call is wrapped or the helper renamed
+				var ms []string
+				seen := map[string]bool{}
+				for g := range c.P.Cone(nil, cal) {
+					if isIndexMutator(g) && !seen[fnName(g)] {
+						seen[fnName(g)] = true
+						ms = append(ms, fnName(g))
+					}
+				}
+				sort.Strings(ms)
+				d = "publish " + strings.Join(ms, ",") + " (call " + fnName(cal) + ")"
 			}
 		}
 		if d == "" {
@@ -80,7 +92,7 @@ func ruleAtomic(c *Ctx) {
 		}
 		evs = append(evs, pubEvent{in, d})
 	})
-	c.minInstances("publishing events in Commit", len(evs), 4)
+	c.minInstances("publishing events in Commit", len(evs), 3)
 	// error exits
 	idx := errResultIndex(commit)
 	var exits []*ssa.Return
